@@ -31,6 +31,7 @@ static int	J_kmode;	/* 0: k in {min, min+1, 2min, size}; 1: every k in min..size
 static int	J_mmode;	/* 0: request exactly what is committed; 1: also request `size` (forces a wrap) */
 static size_t	J_ne;		/* table entries in the key */
 static size_t	J_maxstates = (size_t)1 << 22;
+static size_t	J_target = SIZE_MAX;	/* no further level is started once this many states exist */
 
 /* ------------------------------------------------------------------ live objects */
 static r_buf_p	rb;				/* THE real ring */
@@ -1007,8 +1008,12 @@ run_bfs(void) {
 	lo = 0;
 	hi = 1;
 	for (depth = 0; depth < J_depth && 0 == stop_cap; depth ++) {
+		/* The states of the final level get the reader dry-run instead of transitions.  Whether this
+		 * level is final is decided before it starts (depth bound, or the state target is already met
+		 * by what the previous levels produced), so the decision is deterministic. */
+		int final = (depth + 1 == J_depth);
 		for (s = lo; s < hi && 0 == stop_cap; s ++)
-			expand((uint32_t)s, (depth + 1 == J_depth));
+			expand((uint32_t)s, final);
 		if (0 == stop_cap)
 			completed = depth + 1;
 		printf("NOTE\tlevel_%d_states=%zu\n", depth + 1, st_n - hi);
@@ -1016,6 +1021,8 @@ run_bfs(void) {
 		hi = st_n;
 		if (lo == hi)
 			break;
+		if (st_n >= J_target && depth + 1 < J_depth)
+			J_depth = depth + 2;	/* one more level, and it is the final one */
 	}
 	note("states", c_states);
 	note("transitions", c_trans);
@@ -1041,7 +1048,7 @@ run_bfs(void) {
 	note("observed_states", c_obs);
 	note("calc_size_skipped_unsafe_cursor", c_calc_skipped);
 	/* cross-check a deterministic sample of snapshots against API-only history replay */
-	step = (st_n / 200) + 1;
+	step = (st_n / 64) + 1;
 	for (s = 0; s < st_n; s += step) {
 		c_crosschecks ++;
 		if (0 != crosscheck((uint32_t)s))
@@ -1129,6 +1136,8 @@ main(int argc, char **argv) {
 			trace = strdup(argv[++ i]);
 		else if (0 == strcmp(argv[i], "--maxstates") && i + 1 < argc)
 			J_maxstates = strtoull(argv[++ i], NULL, 10);
+		else if (0 == strcmp(argv[i], "--target") && i + 1 < argc)
+			J_target = strtoull(argv[++ i], NULL, 10);
 	}
 	if (NULL != trace) {
 		semi = strchr(trace, ';');
